@@ -1,8 +1,8 @@
 SPECIFICATION Spec
 CONSTANTS
-  Invs <- AllInvs
+  Invs <- QuickInvs
   FollowUps <- Follow
   MaxSteps = 1
   Dev = {}
-INVARIANTS TruthfulExit
+INVARIANTS TruthfulExit DecodeRoundTrip SpellingIrrelevant
 CHECK_DEADLOCK FALSE
